@@ -21,6 +21,7 @@ import Rooc.Proofs.ExpLemmasDefined
 import Rooc.Proofs.ExpLemmasStruct
 import Rooc.Proofs.ExpLemmasFull
 import Rooc.Proofs.ExpLemmasSpell
+import Rooc.Proofs.ExpLemmasCompile
 namespace Rooc.Props.C10
 open Rooc Rooc.Exp Rooc.Sem
 set_option linter.unusedSimpArgs false
@@ -340,6 +341,58 @@ example : simplify (.bin .mul (.var "x") (.num (.fin (-2))) : Exp (Ext K)) ≠
     simplify (.bin .mul (.num (.fin (-2))) (.var "x")) := by
   have h : (-2 : K) ≠ 1 := by norm_num
   simp [simplify, mulCore, isNumEq, h]
+
+/-! ## constant spelling at the level of compilation (the glue `normalized_for_bounds`) -/
+
+/-- FULL: `normalized_for_bounds` normalises BOTH sides of EVERY constraint — there is no shortcut for sides
+that `Exp::is_leaf` calls a leaf (a bare `abs{}`/`min{}`/`max{}` block is one): it is the all-or-nothing map
+of `normConstraint`.  (Seeded change C10-4 added such a shortcut; the correspondence check diffs this model
+function against the real pipeline, and the harness compares block-sided twins.) -/
+theorem normalizedForBounds_spec {α : Type} [Arith α] (cs : List (Constraint α)) :
+    Compile.normalizedForBounds cs = Compile.mapOpt Compile.normConstraint cs :=
+  Compile.normalizedForBounds_spec cs
+
+/-- FULL: bound inference cannot tell constraints with equal normal forms apart: the whole bounds stage of
+`Compile.linearize` (normalisation, `analyze`, `enforceable`) is the same for twin models. -/
+theorem bounds_stage_respell {α : Type} [Arith α] (m m' : Model α) (tol : α) (maxSteps : Nat)
+    (hd : m'.domain = m.domain)
+    (hc : List.Forall₂ Compile.SameNorm m.constraints m'.constraints) :
+    Compile.normalizedForBounds m'.constraints = Compile.normalizedForBounds m.constraints ∧
+    (∀ cs, Compile.normalizedForBounds m.constraints = some cs →
+      Compile.enforceable (Analyzer.analyze m'.domain cs tol maxSteps) m'.domain =
+        Compile.enforceable (Analyzer.analyze m.domain cs tol maxSteps) m.domain) :=
+  Compile.bounds_stage_respell m m' tol maxSteps hd hc
+
+/-- The twin of seeded change C10-4: `max{ (1 + 1) * x, y } <= 10` and `max{ 2 * x, y } <= 10` — the side is a
+bare block — are handed to bound inference as the same constraint, namely the folded one. -/
+theorem block_side_twin_same_bounds_input (ρ : String → K) :
+    Compile.normalizedForBounds
+      [({ name := "", lhs := .max [.bin .mul (.bin .add (.num (.fin 1)) (.num (.fin 1))) (.var "x"), .var "y"],
+          cmp := .le, rhs := .num (.fin 10), isAssert := false } : Constraint (Ext K))] =
+    Compile.normalizedForBounds
+      [{ name := "", lhs := .max [.bin .mul (.num (.fin 2)) (.var "x"), .var "y"],
+         cmp := .le, rhs := .num (.fin 10), isAssert := false }] := by
+  apply Compile.normalizedForBounds_congr
+  refine List.Forall₂.cons ?_ List.Forall₂.nil
+  apply Compile.normConstraint_of_SameNorm
+  refine ⟨rfl, rfl, rfl, ?_, by simp⟩
+  have := respell_normalize ρ "c" (.max [.bin .mul (.var "c") (.var "x"), .var "y"])
+    (.num (.fin 2)) (.bin .add (.num (.fin 1)) (.num (.fin 1))) 2
+    (by simp [isClosed]) (by simp [isClosed]) (by simp [eval]) (by simp [eval, binVal]; norm_num)
+  simpa [subst, substL] using this
+
+/-- … and that constraint is the folded one (no leaf shortcut): the coefficient reaches the analyzer as the
+literal `1 + 1`. -/
+example : Compile.normalizedForBounds
+      [({ name := "", lhs := .max [.bin .mul (.bin .add (.num (.fin 1)) (.num (.fin 1))) (.var "x"), .var "y"],
+          cmp := .le, rhs := .num (.fin 10), isAssert := false } : Constraint (Ext K))] =
+    some [{ name := "", lhs := .max [.bin .mul (.num (.fin (1 + 1))) (.var "x"), .var "y"],
+            cmp := .le, rhs := .num (.fin 10), isAssert := false }] := by
+  have h2 : ((1 : K) + 1 = 0) = False := by simp; norm_num
+  have h3 : ((1 : K) + 1 = 1) = False := by simp
+  simp [Compile.normalizedForBounds_spec, Compile.mapOpt, Compile.normConstraint, Lin.normalizeExp,
+    Lin.flattenFuel, flattenF, flattenF.flattenMulRest, simplify, addCore, mulCore, isNumEq, allNums,
+    mayBeUndefined, h2, h3]
 
 /-! ## structural facts about the output (consumed by the linearizer) -/
 
